@@ -29,9 +29,8 @@ KINDS = ('Graph', 'FactorGraph', 'HRG', 'FGG')
 
 
 def bounds(tier):
-    return {'depth': {'Graph': 3, 'FactorGraph': 2, 'HRG': 3, 'FGG': 3} if tier == 'quick' else
-            {'Graph': 4, 'FactorGraph': 3, 'HRG': 4, 'FGG': 4},
-            'all_pairs_eq_states_cap': 1500 if tier == 'quick' else 4000}
+    return {'depth': {'Graph': 4, 'FactorGraph': 3, 'HRG': 4, 'FGG': 4},
+            'all_pairs_eq_states_cap': 4000 if tier == 'quick' else 12000}
 
 
 # ---------------------------------------------------------------------------------------------
